@@ -263,3 +263,36 @@ def o_c13_lockstep(w, args):
     if got != want or [fam(c) for c in whole] != want:
         return '[complexes/nested-content] a suspended iteration resumed after a complete one yields other snapshots than the indices have'
     return None
+
+@oracle('lockstep2')
+def o_lockstep2(w, args):
+    """two different filtrations iterated in step: each iteration yields its own filtration's snapshots, and neither
+    filtration's index set or current index is disturbed"""
+    f = w.vars[args[0]]; g = w.vars[args[1]]
+    def fam(c):
+        return sorted(tok(s) for s in c.simplices())
+    def want_of(x):
+        out = []
+        for i in list(x.indices()):
+            y = _copy.deepcopy(x); y.setIndex(i); out.append(fam(y.snap()))
+        return out
+    fi, gi = list(f.indices()), list(g.indices()); f0, g0 = f.getIndex(), g.getIndex()
+    wf_, wg_ = want_of(f), want_of(g)
+    itf, itg = iter(f.complexes()), iter(g.complexes())
+    gotf, gotg = [], []
+    try:
+        for k in range(max(len(fi), len(gi)) + 1):
+            for it, got in ((itf, gotf), (itg, gotg)):
+                try:
+                    got.append(fam(next(it)))
+                except StopIteration:
+                    pass
+    except Exception as e:
+        return '[complexes/two-filtrations-raises] %s: %s' % (type(e).__name__, e)
+    if list(f.indices()) != fi or list(g.indices()) != gi:
+        return '[complexes/two-filtrations-indices] iterating two filtrations in step changed an index set: %s -> %s / %s -> %s' % (fi, list(f.indices()), gi, list(g.indices()))
+    if f.getIndex() != f0 or g.getIndex() != g0:
+        return '[complexes/two-filtrations-index] iterating two filtrations in step moved a current index'
+    if gotf != wf_ or gotg != wg_:
+        return '[complexes/two-filtrations-content] iterating two filtrations in step: a snapshot is not the one of its own filtration at its index'
+    return None
